@@ -6,6 +6,7 @@ from typing import Any, Dict, List, Optional, Set, Tuple
 
 from ..core import AnalysisError, Report
 from ..pycfg import build_py_cfg
+from ..pysubst import Outcome, method_outcomes
 from ..pyfacts import Repo, calls, dotted, norm, raise_guards, raised_class, walk_no_nested
 
 D = 'flipjump/interpreter/io_devices/'
@@ -15,77 +16,109 @@ UNPACKERS = [(D + 'FixedIO.py', 'FixedIO'), (D + 'StandardIO.py', 'StandardIO')]
 KBD = D + 'KeyboardIO.py'
 
 
-def _eq8(test: ast.expr, cnt: str) -> bool:
-    return norm(test) in (f'8 == {cnt}', f'{cnt} == 8')
+def _pack_names(outs: List[Outcome]) -> Tuple[Optional[str], Optional[str]]:
+    """(accumulator attribute, count attribute) of a write_bit: the count is the attribute compared with 8, the accumulator the
+    attribute that receives `bit << count | acc` on the no-flush path."""
+    import re
+    cnt = None
+    for o in outs:
+        for c in o.conds:
+            m = re.fullmatch(r'1 \+ (self\.\w+) (==|!=) 8', c)
+            if m:
+                cnt = m.group(1)
+    acc = None
+    for o in outs:
+        if cnt and f'1 + {cnt} != 8' in o.conds:
+            for k, v in o.state.items():
+                if k != cnt and v == f'bit << {cnt} | {k}':
+                    acc = k
+    return acc, cnt
 
 
 def rule_pack(rep: Report, repo: Repo) -> None:
-    rep.rule('C17.PACK', 'all four write_bit bodies reduce to the same transfer function over (accumulator, count): '
-             'acc |= bit << count; count += 1; if count == 8: emit(acc); acc, count = 0, 0', 4)
+    rep.rule('C17.PACK', 'all four write_bit bodies reduce (by forward substitution over every path, private helpers inlined) to the same '
+             'transfer function over (accumulator, count): on the paths where count+1 != 8 exactly acc := bit << count | acc and '
+             'count := count + 1, nothing else; on the paths where count+1 == 8 both are reset to 0 and the completed byte '
+             '`bit << count | acc` is what gets emitted', 4)
     for rel, cls in PACKERS:
         fn = repo.func(rel, f'{cls}.write_bit')
-        body = [s for s in fn.body if not (isinstance(s, ast.Expr) and isinstance(s.value, ast.Constant))]
         site = f'{rel}:{fn.lineno} {cls}.write_bit'
-        ok, why = False, 'shape not recognised'
-        if len(body) == 3 and isinstance(body[0], ast.AugAssign) and isinstance(body[0].op, ast.BitOr) \
-                and isinstance(body[1], ast.AugAssign) and isinstance(body[1].op, ast.Add) and isinstance(body[2], ast.If):
-            acc, cnt = norm(body[0].target), norm(body[1].target)
-            bit = fn.args.args[1].arg
-            s0 = norm(body[0].value) == f'{bit} << {cnt}'
-            s1 = norm(body[1].value) == '1'
-            s2 = _eq8(body[2].test, cnt) and not body[2].orelse
-            # inside the if: the accumulator is emitted, then both are reset to 0
-            assigns: Dict[str, str] = {}
-            emitted = False
-            for st in body[2].body:
-                if isinstance(st, ast.Assign):
-                    if isinstance(st.targets[0], ast.Tuple) and isinstance(st.value, ast.Tuple):
-                        for t, v in zip(st.targets[0].elts, st.value.elts):
-                            assigns[norm(t)] = norm(v)
-                    else:
-                        assigns[norm(st.targets[0])] = norm(st.value)
-                elif isinstance(st, ast.AnnAssign) and st.value is not None:
-                    assigns[norm(st.target)] = norm(st.value)
-            txt = ' ; '.join(norm(s) for s in body[2].body)
-            emitted = (f'{acc}.to_bytes(1, \'little\')' in txt) or (assigns.get('byte') == acc and 'self._handle_byte(byte)' in txt)
-            reset = assigns.get(acc) == '0' and assigns.get(cnt) == '0'
-            # the emission must read the accumulator before it is reset
-            first_reset = min([s.lineno for s in body[2].body if isinstance(s, ast.Assign) and norm(s.targets[0]) == acc] or [10 ** 9])
-            first_emit = min([n.lineno for s in body[2].body for n in ast.walk(s) if isinstance(n, ast.Attribute) and norm(n) == acc
-                              and isinstance(n.ctx, ast.Load)] or [0])
-            order = first_emit <= first_reset
-            ok = s0 and s1 and s2 and emitted and reset and order
-            why = f'acc={acc} cnt={cnt}: or-shift={s0} inc={s1} flush@8={s2} emit={emitted} reset={reset} emit-before-reset={order}'
-        rep.check(ok, 'C17.PACK', f'{cls}.write_bit', why, site, expected='lsb-first accumulate, flush at 8, reset')
+        outs = method_outcomes(repo, rel, cls, 'write_bit')
+        acc, cnt = _pack_names(outs)
+        if acc is None or cnt is None:
+            rep.fail('C17.PACK', f'{cls}.write_bit', f'no (accumulator, count) pair with the lsb-first update found on the no-flush path; paths: '
+                     f'{[(o.conds, o.state) for o in outs][:2]}', site, expected='acc := bit << count | acc; count := count + 1')
+            continue
+        full = f'bit << {cnt} | {acc}'
+        ok, why = True, []
+        n_flush = n_keep = 0
+        for o in outs:
+            if f'1 + {cnt} != 8' in o.conds:
+                n_keep += 1
+                good = o.state == {acc: full, cnt: f'1 + {cnt}'} and not o.effects and o.result == ('fall', None)
+                ok = ok and good
+                if not good:
+                    why.append(f'no-flush path: state {o.state} effects {o.effects} result {o.result}')
+            elif f'1 + {cnt} == 8' in o.conds:
+                n_flush += 1
+                emitted = any(full in v for k, v in o.state.items() if k not in (acc, cnt)) or any(full in e for e in o.effects)
+                good = o.state.get(acc) == '0' and o.state.get(cnt) == '0' and emitted
+                ok = ok and good
+                if not good:
+                    why.append(f'flush path {o.conds[:3]}: acc={o.state.get(acc)} cnt={o.state.get(cnt)} completed byte emitted={emitted}')
+            else:
+                ok = False
+                why.append(f'a path that does not test count+1 against 8: {o.conds}')
+        ok = ok and n_flush >= 1 and n_keep == 1
+        rep.check(ok, 'C17.PACK', f'{cls}.write_bit', f'acc={acc} cnt={cnt}: {n_keep} no-flush + {n_flush} flush paths' + (': ' + '; '.join(why[:2]) if why else ''),
+                  site, expected='lsb-first accumulate, flush the completed byte at 8, reset')
+
+
+def _unpack_facts(outs: List[Outcome]) -> Dict[str, Any]:
+    import re
+    f: Dict[str, Any] = dict(cnt=None, byte=None)
+    for o in outs:
+        if len(o.conds) == 1:
+            m = re.fullmatch(r'0 != (self\.\w+)', o.conds[0])
+            if m and o.result[0] == 'return':
+                f['cnt'] = m.group(1)
+                r = re.fullmatch(r'1 & (self\.\w+) == 1', o.result[1] or '')
+                f['byte'] = r.group(1) if r else None
+                f['steady'] = o
+    return f
 
 
 def rule_unpack(rep: Report, repo: Repo) -> None:
-    rep.rule('C17.UNPACK', 'read_bit of the buffering devices refills exactly when the count is 0 (setting it to 8), returns byte & 1, '
-             'then shifts right by one and decrements; the keyboard queue helpers enqueue (value >> i) & 1 for ascending i', 4)
+    rep.rule('C17.UNPACK', 'read_bit of the buffering devices reduces (forward substitution, private helpers inlined) to: count != 0 -> '
+             'return byte & 1, byte >>= 1, count -= 1; count == 0 and a next byte S[0] exists -> return S[0] & 1, byte := S[0] >> 1, '
+             'count := 7 (and a buffered source drops exactly that byte); the keyboard queue helpers enqueue (value >> i) & 1 for ascending i', 4)
     for rel, cls in UNPACKERS:
         fn = repo.func(rel, f'{cls}.read_bit')
         site = f'{rel}:{fn.lineno} {cls}.read_bit'
-        body = fn.body
-        ok, why = False, 'shape not recognised'
-        if len(body) == 5 and isinstance(body[0], ast.If):
-            t = norm(body[0].test)
-            cnt = t.replace('0 == ', '').replace(' == 0', '')
-            refill = {norm(s.targets[0]): norm(s.value) for s in body[0].body if isinstance(s, ast.Assign)}
-            byte_v = norm(body[2].target) if isinstance(body[2], ast.AugAssign) else '?'
-            s_ref = t in (f'0 == {cnt}', f'{cnt} == 0') and refill.get(cnt) == '8'
-            s_bit = isinstance(body[1], ast.Assign) and norm(body[1].value) in (f'{byte_v} & 1 == 1', f'({byte_v} & 1) == 1')
-            s_shift = isinstance(body[2], ast.AugAssign) and isinstance(body[2].op, ast.RShift) and norm(body[2].target) == byte_v and norm(body[2].value) == '1'
-            s_dec = isinstance(body[3], ast.AugAssign) and isinstance(body[3].op, ast.Sub) and norm(body[3].target) == cnt and norm(body[3].value) == '1'
-            s_ret = isinstance(body[4], ast.Return) and isinstance(body[1], ast.Assign) and norm(body[4].value) == norm(body[1].targets[0])
-            first_byte = refill.get(byte_v, '')
-            s_src = first_byte.endswith('[0]')
-            ok = s_ref and s_bit and s_shift and s_dec and s_ret and s_src
-            why = f'refill@0->8={s_ref} bit=byte&1={s_bit} shift={s_shift} dec={s_dec} ret={s_ret} next-byte=first unread={s_src}'
+        outs = method_outcomes(repo, rel, cls, 'read_bit')
+        f = _unpack_facts(outs)
+        cnt, byte = f.get('cnt'), f.get('byte')
+        ok, why = False, f'no steady-state path (count != 0 -> return byte & 1) found among {[o.conds for o in outs]}'
+        if cnt and byte:
+            st = f['steady']
+            s_steady = st.state == {byte: f'{byte} >> 1', cnt: f'{cnt} - 1'} and not st.effects
+            refills = [o for o in outs if f'0 == {cnt}' in o.conds and o.result[0] == 'return']
+            s_refill = len(refills) == 1
+            src = None
+            if s_refill:
+                import re
+                o = refills[0]
+                m = re.fullmatch(r'1 & (.+)\[0\] == 1', o.result[1] or '')
+                src = m.group(1) if m else None
+                want = {byte: f'{src}[0] >> 1', cnt: '7'}
+                if src and src.startswith('self.'):
+                    want[src] = f'{src}[1:]'           # a buffered source is advanced by exactly the byte just taken
+                s_refill = src is not None and o.state == want and not o.effects
+            others = [o for o in outs if o is not st and o not in refills]
+            s_rest = all(o.result[0] == 'raise' and not o.state and not o.effects and f'0 == {cnt}' in o.conds for o in others)
+            ok = s_steady and s_refill and s_rest
+            why = f'count={cnt} byte={byte} source={src}: steady={s_steady} refill={s_refill} only-other-paths-raise-without-effects={s_rest}'
         rep.check(ok, 'C17.UNPACK', f'{cls}.read_bit', why, site)
-    fx = repo.func(D + 'FixedIO.py', 'FixedIO.read_bit')
-    adv = [norm(s) for s in ast.walk(fx) if isinstance(s, ast.Assign) and norm(s.targets[0]) == 'self.remaining_input']
-    rep.check(adv == ['self.remaining_input = self.remaining_input[1:]'], 'C17.UNPACK', 'FixedIO:consume-one-byte', str(adv),
-              f'{D}FixedIO.py:{fx.lineno}')
     for name, n in (('_queue_input_byte', 8), ('_queue_input_hex', 4)):
         fn = repo.func(KBD, f'KeyboardIO.{name}')
         loop = [s for s in fn.body if isinstance(s, ast.For)]
@@ -98,14 +131,25 @@ def rule_unpack(rep: Report, repo: Repo) -> None:
 def rule_eof(rep: Report, repo: Repo) -> None:
     rep.rule('C17.EOF', 'end-of-input is raised exactly in the refill branch when no byte is available; the keyboard never raises it '
              'and polls (queuing at least a nibble) before popping from an empty queue', 4)
-    fx = repo.func(D + 'FixedIO.py', 'FixedIO.read_bit')
-    g = [(norm(t), raised_class(r), [norm(o) for o in outer]) for t, r, outer in raise_guards(fx)]
-    rep.check(g == [('not self.remaining_input', 'IOReadOnEOF', ['0 == self.bits_to_read_in_input_byte'])], 'C17.EOF', 'FixedIO', str(g),
-              f'{D}FixedIO.py:{fx.lineno}', expected='raise only when the count is 0 and the input is exhausted')
-    sx = repo.func(D + 'StandardIO.py', 'StandardIO.read_bit')
-    g = [(norm(t), raised_class(r), [norm(o) for o in outer]) for t, r, outer in raise_guards(sx)]
-    rep.check(g == [('0 == len(read_bytes)', 'IOReadOnEOF', ['0 == self.bits_to_read_in_input_byte'])], 'C17.EOF', 'StandardIO', str(g),
-              f'{D}StandardIO.py:{sx.lineno}')
+    for rel, cls in UNPACKERS:
+        fn = repo.func(rel, f'{cls}.read_bit')
+        outs = method_outcomes(repo, rel, cls, 'read_bit')
+        f = _unpack_facts(outs)
+        cnt = f.get('cnt')
+        refills = [o for o in outs if cnt and f'0 == {cnt}' in o.conds and o.result[0] == 'return']
+        raising = [o for o in outs if o.result[0] == 'raise']
+        ok = False
+        why = 'no refill path'
+        if cnt and len(refills) == 1 and len(raising) == 1:
+            import re
+            m = re.fullmatch(r'1 & (.+)\[0\] == 1', refills[0].result[1] or '')
+            src = m.group(1) if m else '?'
+            empty = {f'not {src}', f'0 == len({src})', f'len({src}) < 1', f'len({src}) <= 0'}
+            r = raising[0]
+            extra = [c for c in r.conds if c != f'0 == {cnt}']
+            ok = r.result == ('raise', 'IOReadOnEOF') and f'0 == {cnt}' in r.conds and len(extra) == 1 and extra[0] in empty
+            why = f'raises {r.result[1]} under {r.conds}; source {src}'
+        rep.check(ok, 'C17.EOF', cls, why, f'{rel}:{fn.lineno}', expected='IOReadOnEOF exactly when the count is 0 and the source has no byte')
     raises = []
     for st in repo.cls(KBD, 'KeyboardIO').body + repo.cls(KBD, 'ScriptedKeyEventSource').body:
         if isinstance(st, ast.FunctionDef) and st.name in ('read_bit', '_poll', '_queue_input_byte', '_queue_input_hex', 'next_due_event'):
@@ -120,13 +164,17 @@ def rule_eof(rep: Report, repo: Repo) -> None:
 def rule_incomplete(rep: Report, repo: Repo) -> None:
     rep.rule('C17.INCOMPLETE', 'get_output raises IncompleteOutput iff a partial byte is pending and incomplete output is not allowed', 3)
     for rel, cls in PACKERS[:3]:
-        wb = repo.func(rel, f'{cls}.write_bit')
-        cnt = norm(wb.body[1].target) if isinstance(wb.body[1], ast.AugAssign) else '?'
         go = repo.func(rel, f'{cls}.get_output')
-        g = [(norm(t), raised_class(r)) for t, r, _ in raise_guards(go)]
-        ok = g in ([(f'not allow_incomplete_output and 0 != {cnt}', 'IncompleteOutput')], [(f'not allow_incomplete_output and {cnt} != 0', 'IncompleteOutput')])
-        ret = [norm(r.value) for r in ast.walk(go) if isinstance(r, ast.Return)]
-        rep.check(ok and ret == ['self._output'], 'C17.INCOMPLETE', f'{cls}.get_output', f'{g} returns {ret}', f'{rel}:{go.lineno}')
+        _acc, cnt = _pack_names(method_outcomes(repo, rel, cls, 'write_bit'))
+        outs = method_outcomes(repo, rel, cls, 'get_output')
+        raising = [o for o in outs if o.result[0] == 'raise']
+        returning = [o for o in outs if o.result[0] == 'return']
+        ok = (cnt is not None and len(raising) == 1 and raising[0].result == ('raise', 'IncompleteOutput')
+              and sorted(raising[0].conds) == sorted([f'0 != {cnt}', 'not allow_incomplete_output']) and not raising[0].state
+              and bool(returning) and all(o.result == ('return', 'self._output') and not o.state and not o.effects for o in returning)
+              and len(outs) == len(raising) + len(returning))
+        rep.check(ok, 'C17.INCOMPLETE', f'{cls}.get_output', f'{[(o.conds, o.result) for o in outs]}', f'{rel}:{go.lineno}',
+                  expected=f'raise IncompleteOutput iff {cnt} != 0 and not allow_incomplete_output; else return self._output')
 
 
 def rule_kbd(rep: Report, repo: Repo) -> None:
